@@ -1,8 +1,44 @@
 import PybtexModel.Drv.Json
+import PybtexModel.Drv.C01
+import PybtexModel.Model.Interp
 open Lean
 namespace Pybtex.Drv.C03
+open Pybtex.Interp
 
-/-- driver ops of this property: (op name, handler) -/
-def handlers : List (String × (Json → Except String Json)) := []
+def reportJ : Interp.Report → Json
+  | .warning m => arr [Json.str "BibTeXError", strToJson m]
+  | .bib e =>
+    match C01.errJ e with
+    | Json.arr a => arr [a[0]!, a[2]!]
+    | j => j
+  | .data (.repeated k) => arr [Json.str "BibliographyDataError", strToJson ("repeated bibliography entry: ".toList ++ k)]
+  | .data (.badCrossref k x) =>
+    arr [Json.str "BibliographyDataError",
+         strToJson ("bad cross-reference: entry \"".toList ++ k ++ "\" refers to entry \"".toList ++ x ++ "\" which does not exist.".toList)]
+  | .data (.missingEntry k) => arr [Json.str "BibTeXError", strToJson ("missing database entry for \"".toList ++ k ++ "\"".toList)]
+  | .invalidName n => arr [Json.str "InvalidNameString", strToJson n]
+
+def ierrJ : IErr → Json
+  | .bibtex m => arr [Json.str "BibTeXError", Json.str m]
+  | .syntax c => arr [Json.str c, Json.str ""]
+  | .internal w => arr [Json.str "INTERNAL", Json.str w]
+  | .outOfFuel => arr [Json.str "OUT-OF-FUEL", Json.str ""]
+
+def bstrun (j : Json) : Except String Json := do
+  let bst ← getStr j "bst"
+  let bibs ← getStrList j "bibs"
+  let cites ← getStrList j "citations"
+  let mc ← getInt j "min_crossrefs"
+  let fuel ← getNat j "fuel"
+  match Bst.parseFile bst with
+  | .error _ => pure (obj [("out", obj [("error", arr [Json.str "BST-SYNTAX", Json.str ""])])])
+  | .ok prog =>
+    match run fuel prog { bibTexts := bibs, citations := cites, minCrossrefs := mc } with
+    | .error (e, _) => pure (obj [("out", obj [("error", ierrJ e)])])
+    | .ok o =>
+      pure (obj [("out", obj [("bbl", strToJson o.bbl), ("reports", arr (o.reports.map reportJ)),
+                              ("printed", strs o.printed)])])
+
+def handlers : List (String × (Json → Except String Json)) := [("bstrun", bstrun)]
 
 end Pybtex.Drv.C03
